@@ -71,41 +71,45 @@ def hexCheckOrdering (k : Kernel) (hfs : List Nat) : Bool :=
   k.hexWalkOk hfs (hfs.getD topPos 0) offsetTopChain orderTopCheck &&
   k.hexWalkOk hfs (hfs.getD botPos 0) offsetBotChain orderBotCheck
 
+/-- one iteration of cc:123-135: the neighbour across `he` goes to slot `orderTop[idx]`; a missing
+    neighbour ends the call (as patched) -/
+def hexFillStep (k : Kernel) (h0 : Nat) (hfs : List Nat) (st : Option (List (Option Nat) × Nat)) (he : Nat) :
+    Option (List (Option Nat) × Nat) :=
+  match st with
+  | none => none
+  | some (ord, idx) =>
+    match k.hexGetAdj h0 he hfs with
+    | none => none
+    | some a => some (ord.set (orderTopAdd.getD idx 0) (some a), idx + 1)
+
+/-- cc:138-144: from the first halfface across its first halfedge, across the side halfface to the
+    halfedge opposite in it, and across that one -/
+def hexFindBottom (k : Kernel) (h0 : Nat) (hfs : List Nat) : Option Nat :=
+  match (k.hfHes h0).head? with
+  | none => none
+  | some he0 =>
+    match k.hexGetAdj h0 he0 hfs with
+    | none => none
+    | some side =>
+      match k.nextHe (opp he0) side with
+      | none => none
+      | some h1 =>
+        match k.nextHe h1 side with
+        | none => none
+        | some h2 => k.hexGetAdj side h2 hfs
+
 /-- the automatic re-ordering (cc:111-153, as patched: a missing side neighbour rejects).
     `none` = `InvalidCellHandle` is returned. -/
 def hexReorder (k : Kernel) (hfs : List Nat) : Option (List Nat) :=
   let h0 := hfs.getD 0 0
-  let hes := k.hfHes h0
-  -- cc:123-135: the neighbours across the halfedges of the first halfface go to orderTop[0..]
-  let fill := hes.foldl (fun (st : Option (List (Option Nat) × Nat)) he =>
-    match st with
-    | none => none
-    | some (ord, idx) =>
-      match k.hexGetAdj h0 he hfs with
-      | none => none
-      | some a => some (ord.set (orderTopAdd.getD idx 0) (some a), idx + 1))
-    (some ((List.replicate 6 (none : Option Nat)).set 0 (some h0), 0))
-  match fill with
+  match (k.hfHes h0).foldl (k.hexFillStep h0 hfs) (some ((List.replicate 6 (none : Option Nat)).set 0 (some h0), 0)) with
   | none => none
   | some (ord, _) =>
-    -- cc:138-153: the bottom halfface
-    match hes.head? with
+    match k.hexFindBottom h0 hfs with
     | none => none
-    | some he0 =>
-      match k.hexGetAdj h0 he0 hfs with
-      | none => none
-      | some side =>
-        match k.nextHe (opp he0) side with
-        | none => none
-        | some h1 =>
-          match k.nextHe h1 side with
-          | none => none
-          | some h2 =>
-            match k.hexGetAdj side h2 hfs with
-            | none => none
-            | some bot =>
-              let ord := ord.set 1 (some bot)
-              if ord.all (·.isSome) then some (ord.filterMap id) else none
+    | some bot =>
+      let ord := ord.set 1 (some bot)
+      if ord.all (·.isSome) then some (ord.filterMap id) else none
 
 /-- `add_cell(halffaces, topologyCheck)` (cc:74-156) -/
 def hexAddCell (k : Kernel) (hfs : List Nat) (chk : Bool) : Kernel × Option Nat :=
@@ -119,6 +123,17 @@ def hexAddCell (k : Kernel) (hfs : List Nat) (chk : Bool) : Kernel × Option Nat
 
 /-! ### add_cell(vertices) (cc:260-432) -/
 
+/-- the `_vertices[i]` pushed into `vs` -/
+def hexPick (vs idxs : List Nat) : List Nat := idxs.map (fun i => vs.getD i 0)
+
+/-- one guarded `if(!hfK.is_valid()) { … add_face(vs); hfK = halfface_handle(fh, side); }` block (cc:322-374) -/
+def hexCellVStep (vs : List Nat) (st : Kernel × List (Option Nat)) (a : Nat × List Nat × Nat) : Kernel × List (Option Nat) :=
+  match st.2.getD a.1 none with
+  | some _ => st
+  | none =>
+    let r := st.1.addFaceV (hexPick vs a.2.1)
+    (r.1, st.2.set a.1 (r.2.map (fun f => heOf f a.2.2)))
+
 /-- `add_cell(vertices, topologyCheck)`: look the six halffaces up, create the missing faces in
     source order, optionally run the two-manifold / free-halfface test, then the unchecked base
     `add_cell`.  A rejection by the test comes *after* the faces were created (cc:384-429). -/
@@ -126,14 +141,8 @@ def hexAddCellV (k : Kernel) (vs : List Nat) (chk : Bool) : Kernel × Option Nat
   if !k.fullBU then (k, none)
   else if vs.length != 8 then (k, none)
   else
-    let pick := fun (idxs : List Nat) => idxs.map (fun i => vs.getD i 0)
-    let found : List (Option Nat) := cellVFind.map (fun idxs => k.findHalffaceExtensive (pick idxs))
-    let st := cellVAdd.foldl (fun (st : Kernel × List (Option Nat)) (a : Nat × List Nat × Nat) =>
-      match st.2.getD a.1 none with
-      | some _ => st
-      | none =>
-        let r := st.1.addFaceV (pick a.2.1)
-        (r.1, st.2.set a.1 (r.2.map (fun f => heOf f a.2.2)))) (k, found)
+    let found : List (Option Nat) := cellVFind.map (fun idxs => k.findHalffaceExtensive (hexPick vs idxs))
+    let st := cellVAdd.foldl (hexCellVStep vs) (k, found)
     let k1 := st.1
     let hfo := cellVOrder.map (fun i => st.2.getD i none)
     if hfo.any (·.isNone) then ({ k1 with fault := true }, none)
